@@ -67,7 +67,7 @@ AssessClauses(p, ev) ==
   IN  IF r.err = "reuse" THEN {}
       ELSE IF ev.status = "ok" THEN
              F("assess.value", r.err = "none" /\ ~(Close(ev.w, Score(r)) /\ (p.k = "maskediterate" \/ ev.subt.ret = r.ret)))
-             \cup F("missing", p.k = "static" /\ r.err = "missing")
+             \cup F("missing", p.k = "static" /\ PureStatic(p) /\ r.err = "missing")
       ELSE IF ev.status = "raised:MissingAddress" THEN F("missing", r.err # "missing")
       ELSE F("assess.run", r.err = "none")
 
